@@ -362,3 +362,27 @@ PROPS["C18"] = dict(
                                      "views with zero elements are skipped (no message to check); data(iterator) is exercised for unit-stride 1-D views only: its datatype carries no stride extent and the repository's own mpi.cpp pins that behaviour",
                                      "MPI element types int and double (float is mapped too and differs only in the predefined datatype)"],
 )
+
+PROPS["C16"] = dict(
+    custom="c16", targets=[],
+    quick=dict(depth=2, random=6000, floor=30000),
+    thorough=dict(depth=3, random=60000, floor=800000),
+    level="exploration",
+    engine="generated-program harness",
+    level_text=("Generated access-path programs with a compile-time oracle. A type-level model of the interface (kind of object, dimensionality, expected constness, applicability of each step) generates "
+                "paths from 10 kinds of root (array, static_array, array_ref, each const and not; views held by auto&& and auto const& of a mutable and of a const array) for D 1..3 out of indexing, "
+                "front/back, call syntax (indices, ranges, _, ALL in every position), begin/end/cbegin/cend, *, it[n], elements() and its iterators, home() cursors, std::as_const / std::move and 19 "
+                "view-forming operations: bounded-exhaustively to depth 2 (quick) or 3 (thorough) plus seeded random paths four steps deeper. Phase 1 instantiates every path on its root type with the "
+                "real compiler and follows every observer of the resulting object (chained [], *, begin(), elements(), home(), front(), operator()()) down to element references: none may be "
+                "modifiable at the end of a read-only path (nor base()/data_elements() of an array or view point to non-const), one must be modifiable at the end of a mutable path. Phase 2 builds and "
+                "links real statements (assignment from an array, from an lvalue / rvalue of the same type, swap, member swap, fill, elements() assignment) for every distinct type found at the end of a "
+                "read-only path: none may build; assignment from an array must build for the types at the end of mutable paths; a named object of a view or array_ref type must not be copy-constructible."),
+    technique="grammar-based generation of access-path programs (bounded-exhaustive + seeded random), compiler-as-oracle differential between the const and the mutable twin of each path, step-deletion shrinking",
+    level_note=("trusted base: clang++ 14, the type-level model in py/c16.py (it decides applicability and expected constness of each step) and the observer probe vp/c16_probe.hpp; element type int; "
+                "no claim beyond the generated paths"),
+    rule=("case = root kind x D x sequence of steps; evaluations = paths instantiated + phase-2 statement builds; non-trivial = a path of >= 2 steps that instantiates; distinct = path text"),
+    assumptions=["element type int, default pointer and layout types, D 1..3 at the root (up to 4 after partitioned/chunked)",
+                 "base() of iterators, cursors and element ranges is not an access-path operation of the property and is not asserted (const iterators of D >= 2 do return a pointer to non-const from base())",
+                 "paths the library does not offer for a root (e.g. blocked() on a temporary 1-D view) are counted as not instantiable, not as violations",
+                 "mutable paths through operations recorded in known_findings.txt as returning read-only views from mutable sources are excluded from the mutable half by construction and counted"],
+)
